@@ -103,6 +103,9 @@ def nonnull_edges(g, *names: str, also: Optional[Callable[[ast.AST], Optional[bo
             r = also(e)
             if r is not None:
                 return r
+        if isinstance(e, ast.Name) and e.id not in nn:
+            o = origin(g.f, e)      # a condition named into a (single-assignment) local
+            return val(o) if o is not e else None
         if isinstance(e, ast.UnaryOp) and isinstance(e.op, ast.Not):
             v = val(e.operand)
             return None if v is None else not v
@@ -180,6 +183,13 @@ class Membership:
                 p.env[n.target.id] = self.peer
             elif isinstance(n, ast.For) and isinstance(n.target, ast.Name):
                 p.env[n.target.id] = self.peer
+        # an attribute chain of a parameter named into a (single-assignment) local: `own = settings.peering.priority`
+        params = {a.arg for a in self.f.params()}
+        for n in walk_no_defs(self.f.node):
+            if isinstance(n, ast.Assign) and len(n.targets) == 1 and isinstance(n.targets[0], ast.Name) and n.targets[0].id not in p.env:
+                d = dotted(n.value)
+                if d and d.split('.')[0] in params and len(self.defs_of(n.targets[0].id)) == 1:
+                    p.env[n.targets[0].id] = absint.sym(d)
         return p
 
     def defs_of(self, name: str) -> list[ast.AST]:
@@ -359,8 +369,19 @@ def check_peer_classes(ctx: Ctx) -> None:
         import re
         return rf'^truthy\({re.escape(name)}(@loop\d+)?\)$'
 
-    blockers = sorted(L for L in list_locals if any(p.atom(key_rx(L)) is True and any(e.label == 'turn_to' and _const(e.kw.get('#0')) is True for e in p.trace)
-                                                     and _decided_after(p, key_rx(L), cname) for p in paths))
+    # a list is a *blocker* iff its non-emptiness alone makes the difference for `turn_to(True)`: two paths that agree on every
+    # other atom they both decided, one with the list non-empty (pausing), one with it empty (not pausing)
+    def pauses(p) -> bool:
+        return any(e.label == 'turn_to' and _const(e.kw.get('#0')) is True for e in p.trace)
+
+    def differs_only_in(p1, p2, rx) -> bool:
+        import re
+        r = re.compile(rx)
+        return all(v == p2.atoms[k] for k, v in p1.atoms.items() if k in p2.atoms and not r.search(k))
+    pausing = [p for p in paths if pauses(p)]
+    calm = [p for p in paths if not pauses(p)]
+    blockers = sorted(L for L in list_locals if any(p1.atom(key_rx(L)) is True and any(p2.atom(key_rx(L)) is False and differs_only_in(p1, p2, key_rx(L)) for p2 in calm)
+                                                     for p1 in pausing))
     ctx.require_sites('R13.1', 'process_peering_event: peer lists whose non-emptiness pauses the operator', len(blockers), 1, f.loc())
 
     def union(names: Iterable[str]) -> dict[str, Optional[bool]]:
@@ -484,19 +505,6 @@ def check_peer_classes(ctx: Ctx) -> None:
 
 def _const(v: Optional[absint.V]) -> Any:
     return v.data if v is not None and v.kind in ('const', 'bool') else '?'
-
-
-def _decided_after(p: absint.Path, rx: str, cname: str) -> bool:
-    """The list's truthiness was decided in the toggle decision (after `<toggle> is None` was tested)."""
-    import re
-    r = re.compile(rx)
-    seen_none = False
-    for k in p.order:
-        if k == f'isnone({cname})':
-            seen_none = True
-        elif r.search(k):
-            return seen_none
-    return False
 
 
 # ====================================================================== R13.2 / R20.5 keep-alive withdrawal
@@ -727,11 +735,18 @@ def check_pause_wiring(ctx: Ctx) -> None:
            construct=construct(dk, 'dom:wait_for(True)<stop_daemon(PAUSING)'))
     for s in stops:
         loops = [fr.stmt for fr in s.frames if fr.kind == 'loop' and isinstance(fr.stmt, ast.For)]
-        srcs = ' '.join(src(l.iter) for l in loops)
         cond = any(isinstance(x, (ast.If, ast.Continue, ast.Break)) for l in loops[-2:] for st_ in l.body for x in walk_no_defs(st_))
         ctx.ob(R, 'daemon_killer: the pausing stop covers every daemon of every object (unconditional loops over all memories and their running daemons)',
-               'iter_all_daemon_memories' in srcs and 'running_daemons' in srcs and not cond, loc=dk.loc(s.stmt), construct=construct(dk, 'flow:stop all daemons (pausing)'))
+               sweeps_all_daemons(loops) and not cond, loc=dk.loc(s.stmt), construct=construct(dk, 'flow:stop all daemons (pausing)'))
         break
+
+
+def sweeps_all_daemons(loops: list) -> bool:
+    """Nested loops: over `<memories>.iter_all_daemon_memories()` and over `<memory>.running_daemons.values()` of its loop variable."""
+    outer = [l for l in loops if any(method_call(c, 'iter_all_daemon_memories') is not None for c in calls_in(l.iter))]
+    inner = [l for l in loops if any(isinstance(x, ast.Attribute) and x.attr == 'running_daemons' for x in ast.walk(l.iter))]
+    return any(isinstance(o.target, ast.Name) and any(isinstance(x, ast.Name) and x.id == o.target.id for x in ast.walk(i.iter)) and i is not o
+               for o in outer for i in inner)
 
 
 def _defs(f: FuncInfo, e: ast.AST) -> list[ast.AST]:
